@@ -18,6 +18,71 @@ NOT_DECIDED = ["byte-for-byte equality of the concatenated files for concrete hi
 THOROUGH_CONFIGS = ("headeronly",)
 
 
+def record_framing(ck, S, RID):
+    """IODeviceSink::send writes, per record, exactly one buffer = encode(formattedMessage()) + one newline"""
+    F = ck.facts
+    # ---- O2
+    fn = S.io_send
+    g = S.g(fn)
+    isnull = lambda n: is_call(n, ("isNull",)) and is_this_field(skip_copies(n).get("obj"), IO + "::m_device") or is_this_field(n, IO + "::m_device") and False
+    def dev_atom(val):
+        def atom(n):
+            if is_call(n, ("isNull",)) and is_this_field(skip_copies(n).get("obj"), IO + "::m_device"):
+                return not val
+            if is_this_field(n, IO + "::m_device"):
+                return val
+            return None
+        return atom
+    writes = [n for n in fn.calls() if name_is(n.get("callee"), ("QIODevice::write", "QIODevice::putChar")) and is_this_field(unwrap_ptr(n.get("obj")), IO + "::m_device")]
+    if len(writes) != 1:
+        ck.ob(RID, sitestr(fn), False, "IODeviceSink::send performs %d device writes per record (a rotation or another thread's record could separate them)" % len(writes) if writes else "IODeviceSink::send no longer writes", key="IODeviceSink::send|write-count")
+    else:
+        w = writes[0]
+        ws = g.site_of(w)
+        keep = g.projector(dev_atom(True))
+        ok = g.must_pass({ws}, keep=keep) and not g.in_cycle(ws)
+        ck.ob(RID, sitestr(fn, w), ok, "with a device: exactly one write on every path" if ok else "with a device: the write is conditional or repeated", key="IODeviceSink::send|write-conditional")
+        ok = ws not in g.live(g.projector(dev_atom(False)))
+        ck.ob(RID, sitestr(fn, w), ok, "without a device nothing is dereferenced", key="IODeviceSink::send|null-device")
+        buf = deref_local(fn, w["args"][0]) if w.get("args") else None
+        b0 = skip_copies(w["args"][0]) if w.get("args") else None
+        if isinstance(b0, dict) and b0.get("k") == "ref" and b0.get("dk") == "local" and skip_copies(buf).get("id") == b0.get("id"):
+            # the record is built in a named buffer step by step: initialiser, then appends (straight-line history)
+            try:
+                hist = var_history(fn, g, b0["decl"])
+            except AnalysisBroken:
+                hist = None
+            if hist:
+                pieces = []
+                okh = True
+                for kind, node, rhs in hist:
+                    if kind == "init":
+                        pieces.append(rhs)
+                    elif kind == "call" and is_call(node, ("QByteArray::append", "QByteArray::push_back", "QByteArray::operator+=")):
+                        pieces.append(node)
+                    elif kind == "assign":
+                        pieces.append(rhs)
+                    elif kind == "use":
+                        continue
+                    else:
+                        okh = False
+                if okh and pieces:
+                    # a synthetic concatenation node so that the same counting applies
+                    buf = {"id": -1, "k": "initlist", "els": [p_ for p_ in pieces if isinstance(p_, dict)]}
+        nl = [x for x in walk(buf) if const_str(x) == "\n" or (x.get("k") == "char" and x.get("v") == 10)]
+        others = [x for x in walk(buf) if x.get("k") in ("str", "qstr", "char") and x not in nl and not (x.get("k") == "str" and const_str(x) == "\n")]
+        fm = [x for x in walk(buf) if is_call(x, LM + "::formattedMessage") and obj_is_param(skip_copies(x), fn, 0)]
+        enc = [x for x in walk(buf) if is_call(x, ("QString::toLocal8Bit", "QString::toUtf8"))]
+        app = [x for x in walk(buf) if is_call(x, ("QByteArray::append", "QByteArray::operator+=", "QByteArray::push_back"))]
+        nlc = len({id(x) for x in nl})
+        ok = len(fm) == 1 and len(enc) == 1 and nlc >= 1 and len(app) == 1 and not lossy_wrappers(buf) and len(w["args"]) == 1
+        # exactly one newline literal (QByteArray::append("\n") shows the literal once after folding)
+        lits = [x for x in walk(buf) if x.get("k") in ("str", "char")]
+        ok = ok and len(lits) == 1
+        ck.ob(RID, sitestr(fn, w), ok, "the buffer is encode(formattedMessage()) + one newline, written whole" if ok else
+              "record buffer is %s (text:%d encode:%d newline literals:%d appends:%d lossy:%s)" % (describe(buf)[:90], len(fm), len(enc), len(lits), len(app), lossy_wrappers(buf)), key="IODeviceSink::send|framing")
+
+
 def run(ck):
     S = Sink(ck)
     F = ck.facts
@@ -59,66 +124,7 @@ def run(ck):
         tgt = F.fns.get(c_wr[0].get("fn"))
         ok = tgt is not None and tgt.id == S.io_send.id
         ck.ob("C05-O1", sitestr(fn, c_wr[0]), ok, "the write is IODeviceSink::send (FileSink does not override it)" if ok else "the write resolves to %s" % c_wr[0].get("callee"), key="RotatingFileSink::send|write-target")
-    # ---- O2
-    fn = S.io_send
-    g = S.g(fn)
-    isnull = lambda n: is_call(n, ("isNull",)) and is_this_field(skip_copies(n).get("obj"), IO + "::m_device") or is_this_field(n, IO + "::m_device") and False
-    def dev_atom(val):
-        def atom(n):
-            if is_call(n, ("isNull",)) and is_this_field(skip_copies(n).get("obj"), IO + "::m_device"):
-                return not val
-            if is_this_field(n, IO + "::m_device"):
-                return val
-            return None
-        return atom
-    writes = [n for n in fn.calls() if name_is(n.get("callee"), ("QIODevice::write", "QIODevice::putChar")) and is_this_field(unwrap_ptr(n.get("obj")), IO + "::m_device")]
-    if len(writes) != 1:
-        ck.ob("C05-O2", sitestr(fn), False, "IODeviceSink::send performs %d device writes per record (a rotation or another thread's record could separate them)" % len(writes) if writes else "IODeviceSink::send no longer writes", key="IODeviceSink::send|write-count")
-    else:
-        w = writes[0]
-        ws = g.site_of(w)
-        keep = g.projector(dev_atom(True))
-        ok = g.must_pass({ws}, keep=keep) and not g.in_cycle(ws)
-        ck.ob("C05-O2", sitestr(fn, w), ok, "with a device: exactly one write on every path" if ok else "with a device: the write is conditional or repeated", key="IODeviceSink::send|write-conditional")
-        ok = ws not in g.live(g.projector(dev_atom(False)))
-        ck.ob("C05-O2", sitestr(fn, w), ok, "without a device nothing is dereferenced", key="IODeviceSink::send|null-device")
-        buf = deref_local(fn, w["args"][0]) if w.get("args") else None
-        b0 = skip_copies(w["args"][0]) if w.get("args") else None
-        if isinstance(b0, dict) and b0.get("k") == "ref" and b0.get("dk") == "local" and skip_copies(buf).get("id") == b0.get("id"):
-            # the record is built in a named buffer step by step: initialiser, then appends (straight-line history)
-            try:
-                hist = var_history(fn, g, b0["decl"])
-            except AnalysisBroken:
-                hist = None
-            if hist:
-                pieces = []
-                okh = True
-                for kind, node, rhs in hist:
-                    if kind == "init":
-                        pieces.append(rhs)
-                    elif kind == "call" and is_call(node, ("QByteArray::append", "QByteArray::push_back", "QByteArray::operator+=")):
-                        pieces.append(node)
-                    elif kind == "assign":
-                        pieces.append(rhs)
-                    elif kind == "use":
-                        continue
-                    else:
-                        okh = False
-                if okh and pieces:
-                    # a synthetic concatenation node so that the same counting applies
-                    buf = {"id": -1, "k": "initlist", "els": [p_ for p_ in pieces if isinstance(p_, dict)]}
-        nl = [x for x in walk(buf) if const_str(x) == "\n" or (x.get("k") == "char" and x.get("v") == 10)]
-        others = [x for x in walk(buf) if x.get("k") in ("str", "qstr", "char") and x not in nl and not (x.get("k") == "str" and const_str(x) == "\n")]
-        fm = [x for x in walk(buf) if is_call(x, LM + "::formattedMessage") and obj_is_param(skip_copies(x), fn, 0)]
-        enc = [x for x in walk(buf) if is_call(x, ("QString::toLocal8Bit", "QString::toUtf8"))]
-        app = [x for x in walk(buf) if is_call(x, ("QByteArray::append", "QByteArray::operator+=", "QByteArray::push_back"))]
-        nlc = len({id(x) for x in nl})
-        ok = len(fm) == 1 and len(enc) == 1 and nlc >= 1 and len(app) == 1 and not lossy_wrappers(buf) and len(w["args"]) == 1
-        # exactly one newline literal (QByteArray::append("\n") shows the literal once after folding)
-        lits = [x for x in walk(buf) if x.get("k") in ("str", "char")]
-        ok = ok and len(lits) == 1
-        ck.ob("C05-O2", sitestr(fn, w), ok, "the buffer is encode(formattedMessage()) + one newline, written whole" if ok else
-              "record buffer is %s (text:%d encode:%d newline literals:%d appends:%d lossy:%s)" % (describe(buf)[:90], len(fm), len(enc), len(lits), len(app), lossy_wrappers(buf)), key="IODeviceSink::send|framing")
+    record_framing(ck, S, "C05-O2")
     # ---- O3
     fn = S.m["rotate"]
     g = S.g(fn)
